@@ -14,6 +14,7 @@
 #include <set>
 #include <sstream>
 #include <string>
+#include <time.h>
 #include <unistd.h>
 #include <vector>
 
@@ -340,6 +341,13 @@ struct Stats
     std::vector<std::string>    foreign_samples;
 };
 
+double mono_now_s()
+{
+    // the real monotonic clock (std::chrono::steady_clock is the harness-owned virtual clock)
+    timespec ts;
+    clock_gettime(CLOCK_MONOTONIC, &ts);
+    return static_cast<double>(ts.tv_sec) + static_cast<double>(ts.tv_nsec) * 1e-9;
+}
 unsigned long long fnv(const std::string& s)
 {
     unsigned long long h = 1469598103934665603ull;
@@ -459,8 +467,13 @@ int gen_main(int argc, char** argv)
     const auto        gen = gen_case(prof, kinds);
     const std::string failpath = g_outdir + "/fail-w" + std::to_string(g_worker) + ".case";
 
+    long   shrink_evals = 0;
+    double fail_t0      = 0;
     bool ok = rc::check(property + " " + mode + " " + profile, [&]() {
         const GCase gc   = *gen;
+        // bound the shrinking phase: once the budget is used up every further candidate "passes", which ends the search
+        if (st.failed && (++shrink_evals > 4000 || mono_now_s() - fail_t0 > 25.0))
+            return;
         std::string text = to_text(gc);
         g_current_len    = std::min(text.size(), sizeof g_current);
         std::memcpy(g_current, text.data(), g_current_len);
@@ -519,6 +532,8 @@ int gen_main(int argc, char** argv)
             // while shrinking, only the same predicate counts as "still failing"
             if (!st.failed || pred == st.fail_pred)
             {
+                if (!st.failed)
+                    fail_t0 = mono_now_s();
                 st.failed    = true;
                 st.fail_pred = pred;
                 st.fail_tags = tags;
